@@ -9,10 +9,12 @@ Property theorems about
   `AnalyticProblems.h` on every run, so these proofs are re-checked against the current source).
 
 All statements are over `Rat` (exact arithmetic) and quantify over every size `n`, every
-symmetric matrix `K`, every box and every finite sequence of admissible operations.
-Helper lemmas: `Lemmas/Smo.lean`.
+symmetric matrix `K`, every box and every finite sequence of admissible operations (SMO steps of
+both problem kinds, coordinate flips, shrink, unshrink).
+Helper lemmas: `Lemmas/Smo.lean` (invariant, flips, shrink/unshrink), `Lemmas/SmoStep.lean` (SMO steps),
+`Lemmas/SmoObjective.lean` (dual objective), `Lemmas/Box2d.lean` (shape of the generated 2-D box solver).
 -/
-import SharkVerif.Lemmas.Smo
+import SharkVerif.Lemmas.SolveLoop
 import Mathlib.Tactic.FieldSimp
 namespace SharkVerif.C08
 open SharkVerif.Qp SharkVerif.Gen.Analytic SharkVerif.Smo
@@ -82,25 +84,99 @@ theorem box2d_in_box (ai aj gi gj Qii Qij Qjj Li Ui Lj Uj : Rat)
 example : (0:Rat) ≤ (solveQuadratic2DBox (1/2) (1/2) 1 (-1) 2 0 2 0 1 0 1).1 :=
   (box2d_in_box (1/2) (1/2) 1 (-1) 2 0 2 0 1 0 1 (by norm_num) (by norm_num)).1.1
 
+/-- **box2d_gain_nonneg**: the (repaired) 2-D box sub-solver never decreases the objective
+`μᵀg − ½ μᵀQμ` of its sub-problem, for every box and every start point (not even required to lie in the box),
+whenever the diagonal entry `Qii` is non-negative (true for every PSD matrix).  The hypothesis is used in the interior
+branch only (`det > 1e-12` and `Qii ≥ 0` make `Q` positive definite); the edge branch compares every candidate's gain
+with 0 and keeps the current point if none improves, so it needs no hypothesis at all. -/
+theorem box2d_gain_nonneg (ai aj gi gj Qii Qij Qjj Li Ui Lj Uj : Rat) (hQ : 0 ≤ Qii) :
+    0 ≤ gain2 gi gj Qii Qij Qjj ((solveQuadratic2DBox ai aj gi gj Qii Qij Qjj Li Ui Lj Uj).1 - ai)
+        ((solveQuadratic2DBox ai aj gi gj Qii Qij Qjj Li Ui Lj Uj).2 - aj) := by
+  rw [box2d_unfold]
+  split
+  · rename_i hdet
+    split
+    · rw [litE] at hdet
+      have hd : 0 < Qii * Qjj - Qij * Qij := by
+        have : (0:Rat) < 1 / 1000000000000 := by norm_num
+        linarith
+      simp only [add_sub_cancel_left]
+      exact interior_gain_nonneg gi gj Qii Qij Qjj hQ hd
+    · exact edgeRes_gain_nonneg ..
+  · exact edgeRes_gain_nonneg ..
+
+example : (0 : Rat) ≤ gain2 1 (-1) 2 0 2 ((solveQuadratic2DBox (1/2) (1/2) 1 (-1) 2 0 2 0 1 0 1).1 - 1/2)
+    ((solveQuadratic2DBox (1/2) (1/2) 1 (-1) 2 0 2 0 1 0 1).2 - 1/2) :=
+  box2d_gain_nonneg (1/2) (1/2) 1 (-1) 2 0 2 0 1 0 1 (by norm_num)
+
+/-- the former defect F5 (`Q = 1e-6·I`, `g = 0`, `α = (½,½)`, box `[0,1]²`: the unrepaired code returned `(0, ½)` with
+gain `−1.25e-7`): the regenerated definition keeps the current point. -/
+theorem box2d_F5_instance_repaired :
+    solveQuadratic2DBox (1/2 : Rat) (1/2) 0 0 (1/1000000) 0 (1/1000000) 0 1 0 1 = (1/2, 1/2) := by
+  rw [box2d_unfold]
+  have hdet : ¬ ((1/1000000 : Rat) * (1/1000000) - 0 * 0 > (1.0e-12 : Rat)) := by rw [litE]; norm_num
+  rw [if_neg hdet]
+  simp only [edgeRes, gainK, choose4, solveQuadraticEdge, smin, smax, lit0, lit05, litE]
+  norm_num
+
+/-- the hypothesis `0 ≤ Qii` cannot be dropped for inputs the C++ accepts: for the negative definite `Q = −I` the
+"free solution" is the minimiser and the generated function moves there (`g = (1/10, 0)`, start `(½,½)`, box `[0,1]²`:
+result `(2/5, ½)`, gain `−1/200`).  Not reachable with kernel (PSD) matrices. -/
+theorem box2d_gain_negative_nonpsd_witness :
+    gain2 (1/10) 0 (-1) 0 (-1) ((solveQuadratic2DBox (1/2 : Rat) (1/2) (1/10) 0 (-1) 0 (-1) 0 1 0 1).1 - 1/2)
+      ((solveQuadratic2DBox (1/2 : Rat) (1/2) (1/10) 0 (-1) 0 (-1) 0 1 0 1).2 - 1/2) < 0 := by
+  rw [box2d_unfold]
+  have hdet : ((-1 : Rat) * (-1) - 0 * 0 > (1.0e-12 : Rat)) := by rw [litE]; norm_num
+  rw [if_pos hdet]
+  norm_num [gain2]
+
 /-! ## 2. The state invariant over all operation sequences -/
 
-/-- operations on the problem state that do not involve a sub-problem solution -/
+/-- operations on the problem state: everything `QpSolver::solve` does to the problem object -/
 inductive Op where
   | flip (i j : Nat)        -- flipCoordinates
   | unshrink
   | shrink (eps : Rat)
+  | smo (i j : Nat)         -- updateSMO (either problem kind; `i = j` is the 1-D step of the box kind)
   deriving Repr
 
-/-- admissibility (the C++ preconditions): flips stay inside the active or inside the shrunk block -/
+/-- admissibility (the C++ preconditions): flips stay inside the active or inside the shrunk block; the working set
+of an SMO step is active (`SIZE_CHECK(i < active())`), and for the equality-constrained kind it is oriented the way
+every selection criterion returns it: `i` is the "up" candidate, `g_i ≥ g_j` (see
+`smo_svm_orientation_witness` for why this cannot be dropped, and `select_valid` for the criteria). -/
 def Op.valid (s : RS) : Op → Prop
   | .flip i j => i < s.n ∧ j < s.n ∧ (i < s.active ↔ j < s.active)
   | .unshrink => True
   | .shrink _ => True
+  | .smo i j => i < s.active ∧ j < s.active ∧ (s.eqc = true → s.g j ≤ s.g i)
 
 def apply (s : RS) : Op → RS
   | .flip i j => s.flip i j
   | .unshrink => s.unshrink
   | .shrink eps => (s.shrink eps).1
+  | .smo i j => s.updateSMO i j
+
+/-- **`SvmProblem::updateSMO` + edge bookkeeping preserves the invariant** (equality-constrained kind) -/
+theorem updateSMO_inv_svm {s : RS} (h : Inv s) (he : s.eqc = true) {i j : Nat} (hi : i < s.active)
+    (hj : j < s.active) (hg : s.g j ≤ s.g i) : Inv (s.updateSMO i j) :=
+  inv_updateSMO_svm h he hi hj hg
+
+/-- **`BoxConstrainedProblem::updateSMO` + edge bookkeeping preserves the invariant** (uses the generated
+`solveQuadraticEdge` / `solveQuadratic2DBox` through `edge_in_box` / `box2d_in_box`); any working set, `i = j` included -/
+theorem updateSMO_inv_box {s : RS} (h : Inv s) (he : s.eqc = false) {i j : Nat} (hi : i < s.active)
+    (hj : j < s.active) : Inv (s.updateSMO i j) :=
+  inv_updateSMO_box h he (fun a g Q L U hLU => edge_in_box a g Q L U hLU)
+    (fun ai aj gi gj Qii Qij Qjj Li Ui Lj Uj hi hj => box2d_in_box ai aj gi gj Qii Qij Qjj Li Ui Lj Uj hi hj) hi hj
+
+/-- the orientation hypothesis of the equality-constrained step is necessary: `n = 2`, `K = I`, `lin = (0,1)`,
+box `[0,1]²`, cold start; the wrongly oriented working set `(0,1)` (`g_0 = 0 < g_1 = 1`) makes the model of
+`SvmProblem::updateSMO` step to `α_0 = −½`, outside the box. -/
+theorem smo_svm_orientation_witness :
+    ((State.init 2 (fun a b => if a = b then (1 : Rat) else 0) true false (fun k => if k = 0 then 0 else 1)
+        (fun _ => 0) (fun _ => 1)).updateSMO 0 1).alpha 0 = -1 / 2 := by
+  rw [updateSMO_svm_alpha rfl]
+  simp only [svmR, svmDen, State.init, State.boxMax, State.boxMin, State.q, smin, smax, upd, lit0, lit2, litE]
+  norm_num
 
 /-- every operation preserves the invariant -/
 theorem apply_inv {s : RS} (h : Inv s) {op : Op} (hv : op.valid s) : Inv (apply s op) := by
@@ -108,8 +184,12 @@ theorem apply_inv {s : RS} (h : Inv s) {op : Op} (hv : op.valid s) : Inv (apply 
   | flip i j => exact inv_flip h hv.1 hv.2.1 hv.2.2
   | unshrink => exact inv_unshrink h
   | shrink eps => exact inv_shrink h eps
+  | smo i j =>
+    cases he : s.eqc
+    · exact updateSMO_inv_box h he hv.1 hv.2.1
+    · exact updateSMO_inv_svm h he hv.1 hv.2.1 (hv.2.2 he)
 
-/-- run a sequence; `none` if some operation is not admissible in the state it is applied to -/
+/-- run a sequence of operations -/
 def run : RS → List Op → RS
   | s, [] => s
   | s, op :: ops => run (apply s op) ops
@@ -119,8 +199,9 @@ def validSeq : RS → List Op → Prop
   | _, [] => True
   | s, op :: ops => op.valid s ∧ validSeq (apply s op) ops
 
-/-- **Invariant for every reachable state (flip / shrink / unshrink histories).** -/
-theorem reachable_inv_partial (ops : List Op) : ∀ (s : RS), Inv s → validSeq s ops → Inv (run s ops) := by
+/-- **Invariant for every reachable state**: every finite history of SMO steps (both problem kinds), coordinate flips,
+shrink and unshrink events. -/
+theorem reachable_inv (ops : List Op) : ∀ (s : RS), Inv s → validSeq s ops → Inv (run s ops) := by
   induction ops with
   | nil => intro s h _; exact h
   | cons op ops ih => intro s h hv; exact ih _ (apply_inv h hv.1) hv.2
@@ -143,18 +224,23 @@ theorem init_inv (n : Nat) (K : Nat → Nat → Rat) (eqc sh : Bool) (lin L U : 
   · intro _ a _; rw [hze a]; simp [State.init]
   · intro k hk1 hk2; exact absurd hk2 (Nat.not_lt.mpr hk1)
 
+example : ∃ s : RS, Inv s ∧ validSeq s [Op.smo 0 1, Op.shrink (1/1000), Op.unshrink] :=
+  ⟨State.init 2 (fun _ _ => 1) false true (fun _ => 1) (fun _ => 0) (fun _ => 1),
+   init_inv 2 _ false true _ _ _ (fun _ _ => rfl) (fun _ _ => by norm_num),
+   ⟨⟨by decide, by decide, fun h => by simp [State.init] at h⟩, trivial, trivial, trivial⟩⟩
+
 /-- **grad_inv**: after any admissible history the maintained gradient of every active variable is
 `lin − K·α` (under the current permutation). -/
 theorem grad_inv (s : RS) (h : Inv s) (ops : List Op) (hv : validSeq s ops) (a : Nat)
     (ha : a < (run s ops).active) :
     (run s ops).g a = (run s ops).lin a - Kalpha (run s ops) a :=
-  (reachable_inv_partial ops s h hv).grad a ha
+  (reachable_inv ops s h hv).grad a ha
 
 /-- **gradient of ALL variables after un-shrinking**, whatever happened before. -/
 theorem grad_all_after_unshrink (s : RS) (h : Inv s) (ops : List Op) (hv : validSeq s ops) (a : Nat)
     (ha : a < s.n) (hn : (run s ops).n = s.n) :
     (run s ops).unshrink.g a = (run s ops).unshrink.lin a - Kalpha (run s ops).unshrink a := by
-  have hi := inv_unshrink (reachable_inv_partial ops s h hv)
+  have hi := inv_unshrink (reachable_inv ops s h hv)
   apply hi.grad
   have : (run s ops).unshrink.active = (run s ops).n := by
     unfold State.unshrink; split
@@ -170,13 +256,591 @@ theorem box_flags_perm_inv (s : RS) (h : Inv s) (ops : List Op) (hv : validSeq s
     (∀ k, t.active ≤ k → k < t.n → (t.alpha k = t.L k ∨ t.alpha k = t.U k)) ∧
     (∀ k, k < t.n → t.perm k < t.n) ∧ (∀ a b, a < t.n → b < t.n → t.perm a = t.perm b → a = b) := by
   intro t
-  have hi := reachable_inv_partial ops s h hv
+  have hi := reachable_inv ops s h hv
   exact ⟨hi.box, fun k hk => ⟨hi.flo k hk, hi.fup k hk⟩, hi.shrunk, hi.perm_lt, hi.perm_inj⟩
 
 /-- **edge_inv**: `m_gradientEdge` is `lin − K·α` restricted to the variables at a bound. -/
 theorem edge_inv (s : RS) (h : Inv s) (ops : List Op) (hv : validSeq s ops)
     (hs : (run s ops).shrinkOn = true) (a : Nat) (ha : a < (run s ops).n) :
     (run s ops).gEdge a = (run s ops).lin a - KalphaEdge (run s ops) a :=
-  (reachable_inv_partial ops s h hv).edge hs a ha
+  (reachable_inv ops s h hv).edge hs a ha
+
+
+/-! ## 3. The equality constraint -/
+
+/-- a quantity that does not depend on the order of the variables is unchanged by flips, unshrink and shrink; an SMO
+step changes it as the step itself does -/
+theorem apply_orderFree {β : Type} {F : RS → β} (hF : OrderFree F) {s : RS} (h : Inv s) {op : Op} (hv : op.valid s)
+    (hsmo : ∀ i j, op = Op.smo i j → F (s.updateSMO i j) = F s) : F (apply s op) = F s := by
+  cases op with
+  | flip i j => exact hF.flip s i j hv.1 hv.2.1
+  | unshrink => exact hF.unshrink s
+  | shrink eps => exact hF.shrink h eps
+  | smo i j => exact hsmo i j rfl
+
+/-- size and problem kind never change -/
+theorem run_n_eqc (ops : List Op) : ∀ (s : RS), Inv s → validSeq s ops →
+    (run s ops).n = s.n ∧ (run s ops).eqc = s.eqc := by
+  induction ops with
+  | nil => intro s _ _; exact ⟨rfl, rfl⟩
+  | cons op ops ih =>
+    intro s h hv
+    obtain ⟨h1, h2⟩ := ih _ (apply_inv h hv.1) hv.2
+    have e1 : (apply s op).n = s.n := apply_orderFree orderFree_n h hv.1 (fun i j _ => (updateSMO_frame s i j).1)
+    have e2 : (apply s op).eqc = s.eqc := apply_orderFree orderFree_eqc h hv.1 (fun i j _ => (updateSMO_frame s i j).2.1)
+    exact ⟨h1.trans e1, h2.trans e2⟩
+
+/-- **sum_inv (one step)**: `SvmProblem::updateSMO` leaves `Σα` unchanged. -/
+theorem sum_inv_step {s : RS} (h : Inv s) (he : s.eqc = true) {i j : Nat} (hi : i < s.active) (hj : j < s.active)
+    (hg : s.g j ≤ s.g i) : alphaSum (s.updateSMO i j) = alphaSum s :=
+  alphaSum_updateSMO_svm h he hi hj hg
+
+/-- **sum_inv**: for the equality-constrained problem the sum of the coefficients is the same after every admissible
+history (SMO steps, flips, shrink, unshrink) as before it. -/
+theorem sum_inv (ops : List Op) : ∀ (s : RS), Inv s → s.eqc = true → validSeq s ops →
+    alphaSum (run s ops) = alphaSum s := by
+  induction ops with
+  | nil => intro s _ _ _; rfl
+  | cons op ops ih =>
+    intro s h he hv
+    have he' : (apply s op).eqc = true :=
+      (apply_orderFree orderFree_eqc h hv.1 (fun i j _ => (updateSMO_frame s i j).2.1)).trans he
+    have e : alphaSum (apply s op) = alphaSum s :=
+      apply_orderFree orderFree_alphaSum h hv.1 (fun i j hop => by
+        subst hop; exact sum_inv_step h he hv.1.1 hv.1.2.1 (hv.1.2.2 he))
+    exact (ih _ (apply_inv h hv.1) he' hv.2).trans e
+
+example : ∃ s : RS, Inv s ∧ s.eqc = true ∧ validSeq s [Op.smo 0 1] :=
+  ⟨State.init 2 (fun _ _ => 1) true true (fun k => if k = 0 then 1 else 0) (fun _ => -1) (fun _ => 1),
+   init_inv 2 _ true true _ _ _ (fun _ _ => rfl) (fun _ _ => by norm_num), rfl,
+   ⟨⟨by decide, by decide, fun _ => by simp [State.init]⟩, trivial⟩⟩
+
+/-! ## 4. The dual objective never decreases -/
+
+/-- **smo_step_gain**: the equality-constrained clipped step with working set `(i,j)`, `g_i ≥ g_j`, moves
+`α_i += μ`, `α_j −= μ` with a step length `0 ≤ μ ≤ (g_i − g_j) / max(K_ii + K_jj − 2K_ij, 1e-12)` that keeps both
+coefficients in their boxes, and changes the dual objective by exactly
+`μ·(g_i − g_j) − ½·μ²·(K_ii + K_jj − 2K_ij)`, which is at least `½·μ·(g_i − g_j) ≥ 0`.
+
+Which hypothesis does the `max(denominator, 1e-12)` guard need?  None: `max(κ,1e-12) ≥ κ`, so the guarded step is
+never longer than the exact line maximiser when `κ ≥ 0` (it is merely shorter when `0 ≤ κ < 1e-12`), and for `κ < 0`
+(not PSD) the second-order term only adds.  So not even `κ ≥ 0` is needed for monotonicity; symmetry of `K` and the
+gradient invariant (both part of `Inv`) are. -/
+theorem smo_step_gain {s : RS} (h : Inv s) (he : s.eqc = true) {i j : Nat} (hi : i < s.active) (hj : j < s.active)
+    (hg : s.g j ≤ s.g i) :
+    let μ := (svmR s i j).1
+    let κ := s.diag i + s.diag j - 2 * s.q i j
+    (0 ≤ μ ∧ μ ≤ (s.g i - s.g j) / svmDen s i j ∧ μ ≤ s.U i - s.alpha i ∧ μ ≤ s.alpha j - s.L j) ∧
+    dualObjective (s.updateSMO i j) - dualObjective s = μ * (s.g i - s.g j) - (1 / 2) * (μ * μ) * κ ∧
+    (1 / 2) * (μ * (s.g i - s.g j)) ≤ dualObjective (s.updateSMO i j) - dualObjective s ∧
+    dualObjective s ≤ dualObjective (s.updateSMO i j) := by
+  intro μ κ
+  have hin : i < s.n := Nat.lt_of_lt_of_le hi h.act_le
+  have hjn : j < s.n := Nat.lt_of_lt_of_le hj h.act_le
+  obtain ⟨h0, h1, _, _, h4, h5⟩ := svmR_spec h hin hjn hg
+  have hd := dual_updateSMO_svm h he hi hj hg
+  have hge := svm_gain_ge h hin hjn hg
+  have hnn : 0 ≤ (svmR s i j).1 * (s.g i - s.g j) := mul_nonneg h0 (by linarith)
+  refine ⟨⟨h0, h1, h4, h5⟩, hd, ?_, ?_⟩
+  · rw [hd]; exact hge
+  · linarith
+
+/-- the guarded curvature of `smo_step_gain` is what the C++ computes: `max(K_ii + K_jj − 2K_ij, 1e-12)` -/
+theorem svmDen_is_guard (s : RS) (i j : Nat) :
+    svmDen s i j = max (s.diag i + s.diag j - 2 * s.q i j) (1 / 1000000000000) := by
+  unfold svmDen smax; rw [lit2, litE]
+  split
+  · rename_i h; exact (max_eq_right (le_of_lt h)).symm
+  · rename_i h; exact (max_eq_left (not_lt.mp h)).symm
+
+/-- **strict progress**: a strictly violating pair with room to move (`α_i < U_i`, `α_j > L_j`) gains strictly. -/
+theorem smo_step_gain_pos {s : RS} (h : Inv s) (he : s.eqc = true) {i j : Nat} (hi : i < s.active) (hj : j < s.active)
+    (hg : s.g j < s.g i) (hui : s.alpha i < s.U i) (hlj : s.L j < s.alpha j) :
+    dualObjective s < dualObjective (s.updateSMO i j) := by
+  have hin : i < s.n := Nat.lt_of_lt_of_le hi h.act_le
+  have hjn : j < s.n := Nat.lt_of_lt_of_le hj h.act_le
+  have hp := svmR_pos h hin hjn hg hui hlj
+  have := (smo_step_gain h he hi hj (le_of_lt hg)).2.2.1
+  have hpos : 0 < (svmR s i j).1 * (s.g i - s.g j) := mul_pos hp (by linarith)
+  linarith
+
+example : ∃ (s : RS) (i j : Nat), Inv s ∧ s.eqc = true ∧ i < s.active ∧ j < s.active ∧ s.g j < s.g i ∧
+    s.alpha i < s.U i ∧ s.L j < s.alpha j :=
+  ⟨State.init 2 (fun _ _ => 1) true true (fun k => if k = 0 then 1 else 0) (fun _ => -1) (fun _ => 1), 0, 1,
+   init_inv 2 _ true true _ _ _ (fun _ _ => rfl) (fun _ _ => by norm_num), rfl, by decide, by decide,
+   by simp [State.init], by simp [State.init, lit0], by simp [State.init, lit0]⟩
+
+/-- **2-D box step**: `BoxConstrainedProblem::updateSMO(i,j)`, `i ≠ j`, changes the dual objective by exactly the
+`gain` expression of `solveQuadratic2DBox` at the point it returns, which is `≥ 0` when `K_ii ≥ 0`
+(`box2d_gain_nonneg`). -/
+theorem box_step_gain_two {s : RS} (h : Inv s) (he : s.eqc = false) {i j : Nat} (hi : i < s.active) (hj : j < s.active)
+    (hij : i ≠ j) (hQ : 0 ≤ s.diag i) :
+    dualObjective (s.updateSMO i j) - dualObjective s
+      = gain2 (s.g i) (s.g j) (s.diag i) (s.q i j) (s.diag j) ((boxV2 s i j).1 - s.alpha i) ((boxV2 s i j).2 - s.alpha j) ∧
+    dualObjective s ≤ dualObjective (s.updateSMO i j) := by
+  have hd := dual_updateSMO_box_two h he hi hj hij
+  refine ⟨hd, ?_⟩
+  have := box2d_gain_nonneg (s.alpha i) (s.alpha j) (s.g i) (s.g j) (s.diag i) (s.q i j) (s.diag j)
+    (s.boxMin i) (s.boxMax i) (s.boxMin j) (s.boxMax j) hQ
+  unfold boxV2 at hd
+  linarith
+
+/-- FULL STATEMENT (not provable for the code as it is): the 1-D box step never decreases the dual objective.
+PROVED PART: all curvatures outside the guard region `0 < K_ii < 1e-12` of `solveQuadraticEdge`
+(`edge_gain_negative_witness` / `box_step_gain_one_negative_witness` lie inside it). -/
+theorem box_step_gain_one_partial {s : RS} (h : Inv s) (he : s.eqc = false) {i : Nat} (hi : i < s.active)
+    (hQ : s.diag i = 0 ∨ 1 / 1000000000000 ≤ s.diag i) :
+    dualObjective s ≤ dualObjective (s.updateSMO i i) := by
+  have hin : i < s.n := Nat.lt_of_lt_of_le hi h.act_le
+  have hd := dual_updateSMO_box_one h he hi
+  have hb := h.box i hin
+  have := edge_gain_nonneg_partial (s.alpha i) (s.g i) (s.diag i) (s.boxMin i) (s.boxMax i)
+    (by rw [boxMin_eq h hin]; exact hb.1) (by rw [boxMax_eq h hin]; exact hb.2) hQ
+  unfold boxV1 at hd
+  linarith
+
+/-- solver-level witness inside the excluded guard region: one variable, `K = 1e-13`, `lin = 1e-20`, box `[0,1]`,
+cold start: the 1-D step jumps to `α = 1` and the dual objective drops from `0` to `1e-20 − 5e-14`. -/
+theorem box_step_gain_one_negative_witness :
+    let s : RS := State.init 1 (fun _ _ => 1 / 10 ^ 13) false false (fun _ => 1 / 10 ^ 20) (fun _ => 0) (fun _ => 1)
+    dualObjective (s.updateSMO 0 0) < dualObjective s := by
+  intro s
+  have hI : Inv s := init_inv 1 _ false false _ _ _ (fun _ _ => rfl) (fun _ _ => by norm_num)
+  have hd := dual_updateSMO_box_one hI rfl (i := 0) (by decide)
+  have hv : boxV1 s 0 = 1 := by
+    simp only [boxV1, s, State.init, State.boxMin, State.boxMax, solveQuadraticEdge, lit0, litE]
+    norm_num
+  rw [hv] at hd
+  have e1 : s.alpha 0 = 0 := lit0
+  have e2 : s.g 0 = 1 / 10 ^ 20 := rfl
+  have e3 : s.diag 0 = 1 / 10 ^ 13 := rfl
+  rw [e1, e2, e3] at hd
+  have : (1 - 0) * (1 / 10 ^ 20) - 1 / 10 ^ 13 * (1 - 0) * (1 - 0) / 2 < (0 : Rat) := by norm_num
+  linarith
+
+/-- the diagonal of the (unpermuted) matrix never changes -/
+theorem run_K (ops : List Op) : ∀ (s : RS), Inv s → validSeq s ops → (run s ops).K = s.K := by
+  induction ops with
+  | nil => intro s _ _; rfl
+  | cons op ops ih =>
+    intro s h hv
+    have e : (apply s op).K = s.K :=
+      apply_orderFree (F := fun t : RS => t.K) ⟨fun _ _ _ _ hK _ _ _ => hK, fun _ _ _ _ _ => rfl⟩ h hv.1
+        (fun i j _ => (updateSMO_frame s i j).2.2.1)
+    exact (ih _ (apply_inv h hv.1) hv.2).trans e
+
+/-- one operation never decreases the dual objective (hypothesis on the diagonal only for the box kind) -/
+theorem apply_objective {s : RS} (h : Inv s) {op : Op} (hv : op.valid s)
+    (hK : s.eqc = false → ∀ x, s.K x x = 0 ∨ 1 / 1000000000000 ≤ s.K x x) :
+    dualObjective s ≤ dualObjective (apply s op) := by
+  cases op with
+  | flip i j => exact le_of_eq (orderFree_dual.flip s i j hv.1 hv.2.1).symm
+  | unshrink => exact le_of_eq (orderFree_dual.unshrink s).symm
+  | shrink eps => exact le_of_eq (orderFree_dual.shrink h eps).symm
+  | smo i j =>
+    have hin : i < s.n := Nat.lt_of_lt_of_le hv.1 h.act_le
+    cases he : s.eqc
+    · have hd := hK he (s.perm i)
+      rw [← h.diag i hin] at hd
+      by_cases hij : i = j
+      · subst hij; exact box_step_gain_one_partial h he hv.1 hd
+      · refine (box_step_gain_two h he hv.1 hv.2.1 hij ?_).2
+        rcases hd with hd | hd
+        · rw [hd]
+        · exact le_trans (by norm_num) hd
+    · exact (smo_step_gain h he hv.1 hv.2.1 (hv.2.2 he)).2.2.2
+
+/-- **objective monotonicity, equality-constrained problem (full)**: after every admissible history the dual
+objective `lin·α − ½ αᵀKα` is at least what it was before -- any symmetric `K`, no curvature hypothesis. -/
+theorem objective_monotone_svm (ops : List Op) : ∀ (s : RS), Inv s → s.eqc = true → validSeq s ops →
+    dualObjective s ≤ dualObjective (run s ops) := by
+  induction ops with
+  | nil => intro s _ _ _; exact le_refl _
+  | cons op ops ih =>
+    intro s h he hv
+    have he' : (apply s op).eqc = true :=
+      (apply_orderFree orderFree_eqc h hv.1 (fun i j _ => (updateSMO_frame s i j).2.1)).trans he
+    have e := apply_objective h hv.1 (fun hf => by rw [he] at hf; exact absurd hf (by simp))
+    exact le_trans e (ih _ (apply_inv h hv.1) he' hv.2)
+
+/-- FULL STATEMENT (not provable for the code as it is): for every PSD `K` the dual objective never decreases along
+any admissible history of either problem kind.  PROVED PART: all matrices whose diagonal entries are `0` or `≥ 1e-12`
+(outside the curvature guard of the 1-D sub-solver); see `box_step_gain_one_negative_witness`. -/
+theorem objective_monotone_partial (ops : List Op) : ∀ (s : RS), Inv s →
+    (∀ x, s.K x x = 0 ∨ 1 / 1000000000000 ≤ s.K x x) → validSeq s ops →
+    dualObjective s ≤ dualObjective (run s ops) := by
+  induction ops with
+  | nil => intro s _ _ _; exact le_refl _
+  | cons op ops ih =>
+    intro s h hK hv
+    have eK : (apply s op).K = s.K := run_K [op] s h ⟨hv.1, trivial⟩
+    have e := apply_objective h hv.1 (fun _ => hK)
+    exact le_trans e (ih _ (apply_inv h hv.1) (by rw [eK]; exact hK) hv.2)
+
+example : ∃ s : RS, Inv s ∧ (∀ x, s.K x x = 0 ∨ 1 / 1000000000000 ≤ s.K x x) ∧ validSeq s [Op.smo 0 1, Op.smo 0 0] :=
+  ⟨State.init 2 (fun _ _ => 1) false true (fun _ => 1) (fun _ => 0) (fun _ => 1),
+   init_inv 2 _ false true _ _ _ (fun _ _ => rfl) (fun _ _ => by norm_num),
+   fun _ => Or.inr (by simp [State.init]; norm_num),
+   ⟨⟨by decide, by decide, fun h => by simp [State.init] at h⟩,
+    ⟨by show 0 < (State.updateSMO _ 0 1).active; rw [updateSMO_active]; decide,
+     by show 0 < (State.updateSMO _ 0 1).active; rw [updateSMO_active]; decide, fun _ => le_refl _⟩, trivial⟩⟩
+
+
+/-! ## 5. Shrinking is sound -/
+
+/-- **shrink_sound (one test)**: in any state that satisfies the invariant, with any bounds `largestUp` / `smallestDown`
+that are valid for the active variables (`Bounds`; `getMaxKKTViolations` computes such bounds, `bounds_maxKKT`), a
+variable for which `testShrinkVariable` answers "shrink" cannot take part in an improving step at that moment:
+* equality-constrained problem (`NoGainSvm`): EVERY feasible sum-preserving two-variable move of non-zero length that
+  involves it, with any active partner and non-negative curvature along the move (true for PSD `K`), strictly
+  decreases the dual objective -- exact second-order statement, not only first order;
+* box problem (`NoGainBox`): every feasible move of the variable has a strictly negative first-order effect (alone or
+  as part of a joint move), and moving it alone strictly decreases the dual objective when `K_aa ≥ 0`. -/
+theorem shrink_sound_step {s : RS} (h : Inv s) {lu sd : Rat} (hB : Bounds s lu sd) {a : Nat} (ha : a < s.active)
+    (ht : s.testShrink a lu sd = true) :
+    (s.eqc = true → NoGainSvm s a) ∧ (s.eqc = false → NoGainBox s a) :=
+  ⟨fun he => noGain_svm h he hB ha ht, fun he => noGain_box h he ha ht⟩
+
+/-- **shrink_sound**: `shrink(eps)` (with its optional internal unshrink and the re-computation of the bounds) is the
+back-to-front loop started in `shrinkStart s eps`; `removals` lists the states and variables at which that loop removes
+a variable (`shrinkGo_active`: one per decrement of `active`), and at EVERY such moment the invariant holds, the
+bounds computed before the loop are still valid for the remaining active variables, and the removed variable cannot
+take part in an improving step (`NoGainSvm` / `NoGainBox` as in `shrink_sound_step`).  Hence shrinking never removes
+a variable that could improve the objective at that moment; that the optimum is unchanged is C07
+`stopped_near_optimal_svm/_box`, which holds for the reported state after ANY history (`reachable_inv`). -/
+theorem shrink_sound {s : RS} (h : Inv s) (eps : Rat) (hs : s.shrinkOn = true) :
+    let st := shrinkStart s eps
+    (s.shrink eps).1 = State.shrinkGo st.2.1 st.2.2 st.1.active st.1 ∧
+    (State.shrinkGo st.2.1 st.2.2 st.1.active st.1).active + (removals st.2.1 st.2.2 st.1.active st.1).length
+      = st.1.active ∧
+    ∀ p, p ∈ removals st.2.1 st.2.2 st.1.active st.1 →
+      Inv p.1 ∧ p.2 < p.1.active ∧ (s.eqc = true → NoGainSvm p.1 p.2) ∧ (s.eqc = false → NoGainBox p.1 p.2) := by
+  intro st
+  obtain ⟨hI, hs', he, hB⟩ := shrinkStart_spec h eps hs
+  refine ⟨shrink_eq s eps hs, shrinkGo_active _ _ _ _ (Nat.le_refl _), ?_⟩
+  intro p hp
+  obtain ⟨h1, h2, h3, h4, h5⟩ := removals_spec st.2.1 st.2.2 st.1.active st.1 hI hs' (Nat.le_refl _) hB p hp
+  have hpe : p.1.eqc = s.eqc := h5.trans he
+  exact ⟨h1, h2, fun e => noGain_svm h1 (hpe.trans e) h3 h2 h4, fun e => noGain_box h1 (hpe.trans e) h2 h4⟩
+
+/-- non-vacuity of `shrink_sound_step`: two variables, box `[0,1]`, `lin = (−1, 1)`, cold start: variable 0 sits at its
+lower bound with negative gradient and passes the shrink test -/
+example : ∃ (s : RS) (lu sd : Rat) (a : Nat), Inv s ∧ s.shrinkOn = true ∧ Bounds s lu sd ∧ a < s.active ∧
+    s.testShrink a lu sd = true := by
+  refine ⟨State.init 2 (fun a b => if a = b then 1 else 0) false true (fun k => if k = 0 then -1 else 1)
+    (fun _ => 0) (fun _ => 1), 1, 0, 0, init_inv 2 _ false true _ _ _ ?_ (fun _ _ => by norm_num), rfl, ?_, by decide, ?_⟩
+  · intro x y; by_cases hxy : x = y <;> simp [hxy, eq_comm]
+  · intro b _
+    constructor
+    · intro _; simp only [State.init]; split <;> norm_num
+    · intro hl; simp [State.init, lit0] at hl
+  · simp [State.testShrink, State.init, smin, lit0]
+
+
+/-! ## 6. The working sets the solver selects are admissible -/
+
+/-- **select_valid** (`selection_returns_violating_pair`): whenever a selection criterion reports a positive
+violation -- in particular whenever `QpSolver::solve` goes on to `updateSMO` because the reported value is `≥ eps > 0`
+-- the working set it returns is admissible for `updateSMO` in the sense of `Op.valid`: both indices active and, for
+the MVP and LibSVM criteria (strategies 0, 1; the only ones used with the equality-constrained problem), `g_i ≥ g_j`.
+For MVP the gradients of the active variables must lie inside the C++ sentinel range `[−1e100, 1e100]`. -/
+theorem select_valid (s : RS) (strategy i0 j0 : Nat) (hk : s.eqc = true → strategy ≤ 1)
+    (hr : strategy = 0 → ∀ a, a < s.active → -(10 : Rat) ^ 100 ≤ s.g a ∧ s.g a ≤ 10 ^ 100)
+    (hv : 0 < (s.select strategy i0 j0).2.2) :
+    (Op.smo (s.select strategy i0 j0).1 (s.select strategy i0 j0).2.1).valid s := by
+  match strategy, hk, hr, hv with
+  | 0, _, hr, hv =>
+    obtain ⟨h1, h2, h3⟩ := selectMVP_spec s i0 j0 (hr rfl) hv
+    have hv' : 0 < (s.selectMVP i0 j0).2.2 := hv
+    exact ⟨h1, h2, fun _ => by
+      show s.g (s.selectMVP i0 j0).2.1 ≤ s.g (s.selectMVP i0 j0).1
+      linarith⟩
+  | 1, _, _, hv =>
+    obtain ⟨h1, h2, h3⟩ := selectLibSVM_spec s hv
+    exact ⟨h1, h2, fun _ => le_of_lt h3⟩
+  | n + 2, hk, _, hv =>
+    obtain ⟨h1, h2⟩ := selectMaxGain_spec s hv
+    refine ⟨h1, h2, fun he => ?_⟩
+    have := hk he
+    omega
+
+/-- **one pass of `QpSolver::solve` without the stopping branch** (the selection reports a violation `≥ eps > 0`):
+every state the pass produces (after `updateSMO`, after the periodic `shrink`) satisfies the invariant, and the dual
+objective of the equality-constrained problem does not decrease. -/
+theorem solveIter_direct_inv (strategy : Nat) (eps : Rat) (heps : 0 < eps) (s : RS) (counter : Nat) (h : Inv s)
+    (hk : s.eqc = true → strategy ≤ 1)
+    (hr : strategy = 0 → ∀ a, a < s.active → -(10 : Rat) ^ 100 ≤ s.g a ∧ s.g a ≤ 10 ^ 100)
+    (hdirect : ¬ (s.select strategy 0 0).2.2 < eps) :
+    ∀ e, e ∈ (solveIter strategy eps s counter).1 → Inv e.2 := by
+  have hv : 0 < (s.select strategy 0 0).2.2 := lt_of_lt_of_le heps (not_lt.mp hdirect)
+  have hval := select_valid s strategy 0 0 hk hr hv
+  have hI : Inv (s.updateSMO (s.select strategy 0 0).1 (s.select strategy 0 0).2.1) :=
+    apply_inv (op := Op.smo _ _) h hval
+  intro e he
+  unfold solveIter at he
+  simp only [hdirect, if_false, List.nil_append] at he
+  split at he
+  · simp only [List.cons_append, List.nil_append, List.mem_cons, List.not_mem_nil, or_false] at he
+    rcases he with he | he
+    · rw [he]; exact hI
+    · rw [he]; exact inv_shrink hI eps
+  · simp only [List.mem_cons, List.not_mem_nil, or_false] at he
+    rw [he]; exact hI
+
+
+/-! ## 7. Every run of `QpSolver::solve` on the box-constrained problem -/
+
+/-- **every pass of `QpSolver::solve` on the box-constrained problem** (maximum-gain selection, `strategy ≥ 2`,
+`eps > 0`), the stopping branch with its re-selection included: every state the pass produces satisfies the invariant,
+and so does the state handed to the next pass. -/
+theorem solveIter_inv_box (strategy : Nat) (hstr : 2 ≤ strategy) (eps : Rat) (heps : 0 < eps) (s : RS) (counter : Nat)
+    (h : Inv s) (he : s.eqc = false) :
+    (∀ e, e ∈ (solveIter strategy eps s counter).1 → Inv e.2 ∧ e.2.eqc = false) ∧
+    (∀ s' c', (solveIter strategy eps s counter).2 = some (s', c') → Inv s' ∧ s'.eqc = false) := by
+  have hsel : ∀ (t : RS) (i0 j0 : Nat), t.select strategy i0 j0 = t.selectMaxGain := by
+    intro t i0 j0
+    match strategy, hstr with
+    | n + 2, _ => rfl
+  -- the SMO step on a pair of active indices
+  have hstep : ∀ (t : RS), Inv t → t.eqc = false → 0 < t.active →
+      Inv (t.updateSMO t.selectMaxGain.1 t.selectMaxGain.2.1) ∧ (t.updateSMO t.selectMaxGain.1 t.selectMaxGain.2.1).eqc = false := by
+    intro t ht hte hpos
+    obtain ⟨hi, hj⟩ := selectMaxGain_lt t hpos
+    exact ⟨updateSMO_inv_box ht hte hi hj, ((updateSMO_frame t _ _).2.1).trans hte⟩
+  -- the tail of the pass: SMO step on `t`, then possibly the periodic shrink
+  have htail : ∀ (t : RS) (pre : List (Ev × RS)), Inv t → t.eqc = false → 0 < t.active →
+      (∀ e, e ∈ pre → Inv e.2 ∧ e.2.eqc = false) →
+      let s3 := t.updateSMO t.selectMaxGain.1 t.selectMaxGain.2.1
+      let evs := pre ++ [(Ev.smo t.selectMaxGain.1 t.selectMaxGain.2.1, s3)]
+      (∀ e, e ∈ evs → Inv e.2 ∧ e.2.eqc = false) ∧
+      (∀ e, e ∈ evs ++ [(Ev.shrink (s3.shrink eps).2, (s3.shrink eps).1)] → Inv e.2 ∧ e.2.eqc = false) ∧
+      (Inv (s3.shrink eps).1 ∧ (s3.shrink eps).1.eqc = false) ∧ (Inv s3 ∧ s3.eqc = false) := by
+    intro t pre ht hte hpos hpre s3 evs
+    have h3 := hstep t ht hte hpos
+    have h4 : Inv (s3.shrink eps).1 ∧ (s3.shrink eps).1.eqc = false :=
+      ⟨inv_shrink h3.1 eps, (shrink_eqc s3 h3.1 eps).trans h3.2⟩
+    refine ⟨?_, ?_, h4, h3⟩
+    · intro e he'
+      rcases List.mem_append.mp he' with h' | h'
+      · exact hpre e h'
+      · simp only [List.mem_cons, List.not_mem_nil, or_false] at h'; rw [h']; exact h3
+    · intro e he'
+      rcases List.mem_append.mp he' with h' | h'
+      · rcases List.mem_append.mp h' with h'' | h''
+        · exact hpre e h''
+        · simp only [List.mem_cons, List.not_mem_nil, or_false] at h''; rw [h'']; exact h3
+      · simp only [List.mem_cons, List.not_mem_nil, or_false] at h'; rw [h']; exact h4
+  unfold solveIter
+  simp only [hsel]
+  by_cases hacc : s.selectMaxGain.2.2 < eps
+  · -- stopping branch
+    simp only [hacc, if_true]
+    have hu : Inv s.unshrink := inv_unshrink h
+    have hue : s.unshrink.eqc = false := (unshrink_eqc s).trans he
+    by_cases hkkt : s.unshrink.checkKKT < eps
+    · simp only [hkkt, if_true]
+      refine ⟨?_, fun s' c' hn => by simp at hn⟩
+      intro e he'
+      simp only [List.mem_cons, List.not_mem_nil, or_false] at he'
+      rw [he']; exact ⟨hu, hue⟩
+    · simp only [hkkt, if_false]
+      have hkpos : 0 < s.unshrink.checkKKT := lt_of_lt_of_le heps (not_lt.mp hkkt)
+      have ht : Inv (s.unshrink.shrink eps).1 := inv_shrink hu eps
+      have hte : (s.unshrink.shrink eps).1.eqc = false := (shrink_eqc _ hu eps).trans hue
+      have hpos : 0 < (s.unshrink.shrink eps).1.active :=
+        shrink_box_active_pos hu hue (unshrink_active s) eps hkpos
+      have hpre : ∀ e, e ∈ [(Ev.unshrink, s.unshrink), (Ev.shrink (s.unshrink.shrink eps).2, (s.unshrink.shrink eps).1)] →
+          Inv e.2 ∧ e.2.eqc = false := by
+        intro e he'
+        simp only [List.mem_cons, List.not_mem_nil, or_false] at he'
+        rcases he' with h' | h' <;> rw [h']
+        · exact ⟨hu, hue⟩
+        · exact ⟨ht, hte⟩
+      obtain ⟨t1, t2, t3, t4⟩ := htail _ _ ht hte hpos hpre
+      try dsimp only at t1 t2 t3 t4 ⊢
+      split
+      · exact ⟨t2, fun s' c' hn => by simp only [Option.some.injEq, Prod.mk.injEq] at hn; rw [← hn.1]; exact t3⟩
+      · exact ⟨t1, fun s' c' hn => by simp only [Option.some.injEq, Prod.mk.injEq] at hn; rw [← hn.1]; exact t4⟩
+  · -- direct branch: the selection reports a violation ≥ eps > 0
+    simp only [hacc, if_false]
+    have hv : 0 < s.selectMaxGain.2.2 := lt_of_lt_of_le heps (not_lt.mp hacc)
+    have hpos : 0 < s.active := by have := (selectMaxGain_spec s hv).1; omega
+    obtain ⟨t1, t2, t3, t4⟩ := htail s [] h he hpos (fun e he' => by simp at he')
+    try dsimp only at t1 t2 t3 t4 ⊢
+    simp only [List.nil_append] at t1 t2 ⊢
+    split
+    · exact ⟨t2, fun s' c' hn => by simp only [Option.some.injEq, Prod.mk.injEq] at hn; rw [← hn.1]; exact t3⟩
+    · exact ⟨t1, fun s' c' hn => by simp only [Option.some.injEq, Prod.mk.injEq] at hn; rw [← hn.1]; exact t4⟩
+
+
+/-- **the whole solver run on the box-constrained problem** (`CSvmTrainer` without bias: maximum-gain selection): for
+every iteration limit, start counter and `eps > 0`, the state `QpSolver::solve` ends in satisfies the invariant -- no
+admissibility hypothesis on the working sets is left, the solver's own selections are covered, the re-selection in the
+stopping branch included. -/
+theorem solve_inv_box (strategy : Nat) (hstr : 2 ≤ strategy) (eps : Rat) (heps : 0 < eps) :
+    ∀ (fuel : Nat) (s : RS) (counter it : Nat), Inv s → s.eqc = false →
+      Inv (solve strategy eps fuel s counter it).1 ∧ (solve strategy eps fuel s counter it).1.eqc = false := by
+  intro fuel
+  induction fuel with
+  | zero => intro s _ _ h he; exact ⟨h, he⟩
+  | succ fuel ih =>
+    intro s counter it h he
+    obtain ⟨hev, hnext⟩ := solveIter_inv_box strategy hstr eps heps s counter h he
+    unfold solve
+    cases hn : (solveIter strategy eps s counter).2 with
+    | none =>
+      simp only []
+      cases hl : (solveIter strategy eps s counter).1.getLast? with
+      | none => simpa using ⟨h, he⟩
+      | some e => simpa using hev e (List.mem_of_getLast? hl)
+    | some p =>
+      obtain ⟨s', c'⟩ := p
+      simp only []
+      exact ih s' c' (it + 1) (hnext s' c' hn).1 (hnext s' c' hn).2
+
+/-! ## 8. Every run of `QpSolver::solve` on the equality-constrained problem -/
+
+/-- **every pass of `QpSolver::solve` on the equality-constrained problem** (LibSVM second-order selection,
+`strategy = 1`, `eps > 0`), the stopping branch with its re-selection included, as long as the gradients of the
+un-shrunk state stay strictly inside the C++ sentinel range `(−1e100, 1e100)`: every state the pass produces satisfies
+the invariant, and so does the state handed to the next pass. -/
+theorem solveIter_inv_svm (eps : Rat) (heps : 0 < eps) (s : RS) (counter : Nat)
+    (h : Inv s) (he : s.eqc = true) (hr : SentinelOK s) :
+    (∀ e, e ∈ (solveIter 1 eps s counter).1 → Inv e.2 ∧ e.2.eqc = true) ∧
+    (∀ s' c', (solveIter 1 eps s counter).2 = some (s', c') → Inv s' ∧ s'.eqc = true) := by
+  have hsel : ∀ (t : RS) (i0 j0 : Nat), t.select 1 i0 j0 = t.selectLibSVM := fun _ _ _ => rfl
+  have hstep : ∀ (t : RS), Inv t → t.eqc = true → 0 < t.selectLibSVM.2.2 →
+      Inv (t.updateSMO t.selectLibSVM.1 t.selectLibSVM.2.1) ∧ (t.updateSMO t.selectLibSVM.1 t.selectLibSVM.2.1).eqc = true := by
+    intro t ht hte hpos
+    obtain ⟨hi, hj, hg⟩ := selectLibSVM_spec t hpos
+    exact ⟨updateSMO_inv_svm ht hte hi hj (le_of_lt hg), ((updateSMO_frame t _ _).2.1).trans hte⟩
+  have htail : ∀ (t : RS) (pre : List (Ev × RS)), Inv t → t.eqc = true → 0 < t.selectLibSVM.2.2 →
+      (∀ e, e ∈ pre → Inv e.2 ∧ e.2.eqc = true) →
+      let s3 := t.updateSMO t.selectLibSVM.1 t.selectLibSVM.2.1
+      let evs := pre ++ [(Ev.smo t.selectLibSVM.1 t.selectLibSVM.2.1, s3)]
+      (∀ e, e ∈ evs → Inv e.2 ∧ e.2.eqc = true) ∧
+      (∀ e, e ∈ evs ++ [(Ev.shrink (s3.shrink eps).2, (s3.shrink eps).1)] → Inv e.2 ∧ e.2.eqc = true) ∧
+      (Inv (s3.shrink eps).1 ∧ (s3.shrink eps).1.eqc = true) ∧ (Inv s3 ∧ s3.eqc = true) := by
+    intro t pre ht hte hpos hpre s3 evs
+    have h3 := hstep t ht hte hpos
+    have h4 : Inv (s3.shrink eps).1 ∧ (s3.shrink eps).1.eqc = true :=
+      ⟨inv_shrink h3.1 eps, (shrink_eqc s3 h3.1 eps).trans h3.2⟩
+    refine ⟨?_, ?_, h4, h3⟩
+    · intro e he'
+      rcases List.mem_append.mp he' with h' | h'
+      · exact hpre e h'
+      · simp only [List.mem_cons, List.not_mem_nil, or_false] at h'; rw [h']; exact h3
+    · intro e he'
+      rcases List.mem_append.mp he' with h' | h'
+      · rcases List.mem_append.mp h' with h'' | h''
+        · exact hpre e h''
+        · simp only [List.mem_cons, List.not_mem_nil, or_false] at h''; rw [h'']; exact h3
+      · simp only [List.mem_cons, List.not_mem_nil, or_false] at h'; rw [h']; exact h4
+  unfold solveIter
+  simp only [hsel]
+  by_cases hacc : s.selectLibSVM.2.2 < eps
+  · simp only [hacc, if_true]
+    have hu : Inv s.unshrink := inv_unshrink h
+    have hue : s.unshrink.eqc = true := (unshrink_eqc s).trans he
+    by_cases hkkt : s.unshrink.checkKKT < eps
+    · simp only [hkkt, if_true]
+      refine ⟨?_, fun s' c' hn => by simp at hn⟩
+      intro e he'
+      simp only [List.mem_cons, List.not_mem_nil, or_false] at he'
+      rw [he']; exact ⟨hu, hue⟩
+    · simp only [hkkt, if_false]
+      have hkpos : 0 < s.unshrink.checkKKT := lt_of_lt_of_le heps (not_lt.mp hkkt)
+      have ht : Inv (s.unshrink.shrink eps).1 := inv_shrink hu eps
+      have hte : (s.unshrink.shrink eps).1.eqc = true := (shrink_eqc _ hu eps).trans hue
+      have hn : s.unshrink.n = s.n := orderFree_n.unshrink s
+      have hpos : 0 < (s.unshrink.shrink eps).1.selectLibSVM.2.2 :=
+        shrink_svm_select_pos hu hue (unshrink_active s) eps hkpos (fun a ha => hr a (by rw [← hn]; exact ha))
+      have hpre : ∀ e, e ∈ [(Ev.unshrink, s.unshrink), (Ev.shrink (s.unshrink.shrink eps).2, (s.unshrink.shrink eps).1)] →
+          Inv e.2 ∧ e.2.eqc = true := by
+        intro e he'
+        simp only [List.mem_cons, List.not_mem_nil, or_false] at he'
+        rcases he' with h' | h' <;> rw [h']
+        · exact ⟨hu, hue⟩
+        · exact ⟨ht, hte⟩
+      obtain ⟨t1, t2, t3, t4⟩ := htail _ _ ht hte hpos hpre
+      try dsimp only at t1 t2 t3 t4 ⊢
+      split
+      · exact ⟨t2, fun s' c' hn => by simp only [Option.some.injEq, Prod.mk.injEq] at hn; rw [← hn.1]; exact t3⟩
+      · exact ⟨t1, fun s' c' hn => by simp only [Option.some.injEq, Prod.mk.injEq] at hn; rw [← hn.1]; exact t4⟩
+  · simp only [hacc, if_false]
+    have hv : 0 < s.selectLibSVM.2.2 := lt_of_lt_of_le heps (not_lt.mp hacc)
+    obtain ⟨t1, t2, t3, t4⟩ := htail s [] h he hv (fun e he' => by simp at he')
+    try dsimp only at t1 t2 t3 t4 ⊢
+    simp only [List.nil_append] at t1 t2 ⊢
+    split
+    · exact ⟨t2, fun s' c' hn => by simp only [Option.some.injEq, Prod.mk.injEq] at hn; rw [← hn.1]; exact t3⟩
+    · exact ⟨t1, fun s' c' hn => by simp only [Option.some.injEq, Prod.mk.injEq] at hn; rw [← hn.1]; exact t4⟩
+
+/-- the states at which the passes of a run start -/
+def passStates (strategy : Nat) (eps : Rat) : Nat → RS → Nat → List RS
+  | 0, _, _ => []
+  | fuel + 1, s, counter =>
+    s :: (match (solveIter strategy eps s counter).2 with
+          | none => []
+          | some (s', c') => passStates strategy eps fuel s' c')
+
+/-- **the whole solver run on the equality-constrained problem** (`CSvmTrainer` with bias, ε-regression, one-class:
+LibSVM second-order selection): the final state satisfies the invariant, provided the gradients stay strictly inside the
+sentinel range at the start of every pass. -/
+theorem solve_inv_svm_partial (eps : Rat) (heps : 0 < eps) :
+    ∀ (fuel : Nat) (s : RS) (counter it : Nat), Inv s → s.eqc = true →
+      (∀ t, t ∈ passStates 1 eps fuel s counter → SentinelOK t) →
+      Inv (solve 1 eps fuel s counter it).1 ∧ (solve 1 eps fuel s counter it).1.eqc = true := by
+  intro fuel
+  induction fuel with
+  | zero => intro s _ _ h he _; exact ⟨h, he⟩
+  | succ fuel ih =>
+    intro s counter it h he hr
+    have hrs : SentinelOK s := hr s (by unfold passStates; exact List.mem_cons_self ..)
+    obtain ⟨hev, hnext⟩ := solveIter_inv_svm eps heps s counter h he hrs
+    unfold solve
+    cases hn : (solveIter 1 eps s counter).2 with
+    | none =>
+      simp only []
+      cases hl : (solveIter 1 eps s counter).1.getLast? with
+      | none => simpa using ⟨h, he⟩
+      | some e => simpa using hev e (List.mem_of_getLast? hl)
+    | some p =>
+      obtain ⟨s', c'⟩ := p
+      simp only []
+      refine ih s' c' (it + 1) (hnext s' c' hn).1 (hnext s' c' hn).2 ?_
+      intro t ht
+      apply hr t
+      unfold passStates
+      rw [hn]
+      exact List.mem_cons_of_mem _ ht
+
+/-- the sentinel hypothesis is not an artefact: with gradients below `−1e100` the LibSVM criterion overlooks a strictly
+violating admissible pair (two free variables with gradients `−2e100 > −3e100`) and reports the violation 0 -/
+def sentinelWitness : RS where
+  n := 2
+  K := fun _ _ => 0
+  eqc := true
+  shrinkOn := false
+  unshrinked := false
+  active := 2
+  perm := fun k => k
+  lin := fun k => if k = 0 then -(2 * 10 ^ 100) else -(3 * 10 ^ 100)
+  alpha := fun _ => 1 / 2
+  diag := fun _ => 0
+  L := fun _ => 0
+  U := fun _ => 1
+  g := fun k => if k = 0 then -(2 * 10 ^ 100) else -(3 * 10 ^ 100)
+  gEdge := fun k => if k = 0 then -(2 * 10 ^ 100) else -(3 * 10 ^ 100)
+  lo := fun _ => false
+  up := fun _ => false
+
+theorem selectLibSVM_sentinel_witness :
+    sentinelWitness.up 0 = false ∧ sentinelWitness.lo 1 = false ∧ sentinelWitness.g 1 < sentinelWitness.g 0 ∧
+    sentinelWitness.selectLibSVM.2.2 = 0 := by
+  refine ⟨rfl, rfl, by norm_num [sentinelWitness], ?_⟩
+  simp only [State.selectLibSVM, sentinelWitness, List.range_succ, List.range_zero, List.nil_append, List.foldl_cons,
+    List.foldl_nil, List.cons_append, lit1e100', lit0]
+  norm_num
 
 end SharkVerif.C08
